@@ -117,12 +117,12 @@ static void setup(void)
 }
 
 static int g_pol; static uint64_t g_seed; static int g_depth; static char g_replay[1 << 16];
-static int g_sp_cas, g_sp_cv;
+static int g_sp_cas, g_sp_cv, g_sp_fx;
 
 static void vh_op(int argc, char **argv)
 {
 	if (!strcmp(argv[0], "conf") && argc >= 3) {
-		g_sp_cas = g_sp_cv = 0; g_pol = 0; g_seed = 1;
+		g_sp_cas = g_sp_cv = g_sp_fx = 0; g_pol = 0; g_seed = 1;
 		if (!strcmp(argv[1], "refcnt")) {
 			g_kind = K_REFCNT; g_init = atoi(argv[2]); g_n = argc - 3;
 			if (g_n > 16) g_n = 16;
@@ -145,8 +145,10 @@ static void vh_op(int argc, char **argv)
 		printf("ok\n");
 		return;
 	}
-	if (!strcmp(argv[0], "spurious") && argc == 3) {
-		g_sp_cas = atoi(argv[1]); g_sp_cv = atoi(argv[2]); printf("ok\n"); return;
+	if (!strcmp(argv[0], "spurious") && (argc == 3 || argc == 4)) {
+		/* third number: a parked futex wait returns -1/EINTR (permille per scheduling decision) */
+		g_sp_cas = atoi(argv[1]); g_sp_cv = atoi(argv[2]); g_sp_fx = argc == 4 ? atoi(argv[3]) : 0;
+		printf("ok\n"); return;
 	}
 	if (!strcmp(argv[0], "run") && g_kind != K_NONE) {
 		setup();
@@ -155,6 +157,7 @@ static void vh_op(int argc, char **argv)
 		else if (g_pol == 3) { vs_policy_prefix(g_replay); vs_trace_enabled(1); }
 		else vs_policy_replay(g_replay);
 		vs_set_spurious(g_sp_cas, g_sp_cv);
+		vs_set_spurious_futex(g_sp_fx);
 		vs_set_max_steps(5000);
 		int st = vs_run();
 		vs_print(stdout);
